@@ -140,7 +140,7 @@ def cases(tier, seed):
 
 def floors(tier):
     n = n_cases(tier)
-    per_kind = 30 if tier == "quick" else 600
+    per_kind = 30 if tier == "quick" else 520  # of 34 / 608 pairs per kind
     out = {"nontrivial:" + k: per_kind for k in KINDS}
     n_sched = n - n // len(CYCLE)
     out["pairs_compared_to_the_end"] = int(0.8 * n_sched)  # i.e. excluded_roundoff (+ other early ends) < 20 %
